@@ -49,7 +49,9 @@ class Parser(object):
                   tabmodule=self.tabmodule)
 
     def parse(self, input):
-        return self.yacc.parse(input)
+        # without an explicit lexer yacc falls back to ply's process-global "last lexer built",
+        # shared by every parser; a clone per call also keeps nested parses on this parser apart
+        return self.yacc.parse(input, lexer=self.lex.clone())
 
     def run(self):
         while 1:
